@@ -93,6 +93,53 @@ def judge(job):
     return out, len(recs)
 
 
+def judge_identity(job):
+    """Identity-constraint errors: the path of every error selects exactly the element the error is about, and that
+    element is the one Identity.tla names: the duplicate / incomplete row for key errors, the declaring element for
+    dangling references, the root for unresolved IDREFs."""
+    from checks import c08
+    recs, ver, kind, level = job
+    out, n = [], 0
+    s = cm.schema_class(ver)(c08.schema_xsd(1, kind, level, "integer", "attr", "child"))
+    ns = {"t": "urn:T"}
+    for rec in recs:
+        xml = c08.doc_xml(rec["doc"], "integer", "attr")
+        root = ET.fromstring(xml)
+        ipath = vdoc.index_paths(root)
+        n += 1
+        try:
+            errors = list(s.iter_errors(root, namespaces=ns))
+        except Exception as e:      # noqa: BLE001
+            out.append((rec, ver, xml, f"raised {type(e).__name__}: {e}"[:200]))
+            continue
+        for e in errors:
+            where = ipath.get(id(e.elem)) if e.elem is not None else None
+            if where is None:
+                out.append((rec, ver, xml, f"error without an element of the document: {str(e.reason)[:80]}"))
+                break
+            sel = vdoc.select(root, e.path, ns)
+            if len(sel) != 1 or sel[0] is not e.elem:
+                out.append((rec, ver, xml, f"path {e.path!r} selects {len(sel)} node(s), the error is about node "
+                            f"{where}: {str(e.reason)[:80]}"))
+                break
+            reason = str(e.reason)
+            scope_depth = 0 if level == "outer" else 1
+            if "not found for Xsd" in reason:
+                want = len(where) == scope_depth          # the element that declares the key reference
+            elif "duplicated value" in reason or "missing key field" in reason:
+                want = len(where) == 2 and root[where[0] - 1][where[1] - 1].tag.endswith("}k")   # a key row
+            elif "IDREF" in reason:
+                want = where == ()
+            elif "duplicated xs:ID" in reason or "ID " in reason:
+                want = len(where) == 2
+            else:
+                want = True
+            if not want:
+                out.append((rec, ver, xml, f"{reason[:80]!r} is located at node {where} ({e.path})"))
+                break
+    return out, n
+
+
 def run(ctx: Ctx):
     thorough = ctx.tier == "thorough"
     r = ctx.tlc("Validator", "Validator.cfg", constants={"MaxItems": 2, "Double": "FALSE"}, tag="docs")
@@ -111,6 +158,22 @@ def run(ctx: Ctx):
             ctx.report({"ver": ver, "parser": parser, "fault": rec["fault"], "target": rec["target"],
                         "nodes": rec["nodes"], "xml": xml, "observed": what},
                        f"{ver}/{parser} {rec['fault']}: {what}  [{xml}]")
+    # identity-constraint errors (documents of spec/Identity.tla)
+    from checks import c08
+    ijobs = []
+    for kind, level in (("key", "inner"), ("key", "outer"), ("unique", "outer")):
+        consts = {"NF": 1, "KeyKind": f'"{kind}"', "Level": f'"{level}"', "MaxRows": 3, "MaxScopes": 2,
+                  "RowKinds": '{"k", "f", "i", "p"}'}
+        ri = ctx.tlc("Identity", "Identity.cfg", constants=consts, tag=f"ident-{kind}-{level}", workers=4)
+        irecs = [x for x in ri.json_records() if c08.canonical(x)]
+        if not thorough:
+            irecs = irecs[::3]
+        ijobs += [(irecs[i:i + 60], ver, kind, level) for ver in ("1.0", "1.1") for i in range(0, len(irecs), 60)]
+    for (_, ver, kind, level), (bad, n) in zip(ijobs, ctx.pmap(judge_identity, ijobs)):
+        total += n
+        for rec, ver, xml, what in bad:
+            ctx.report({"ver": ver, "identity": [kind, level], "doc": rec["doc"], "xml": xml, "observed": what},
+                       f"{ver} identity/{kind}/{level}: {what}  [{xml}]")
     for rec in recs[:: max(1, len(recs) // 3)][:3]:
         ctx.sample({"fault": rec["fault"], "target": rec["target"], "xml": vdoc.render(rec["nodes"])})
     ctx.impl_replays = ctx.evaluations = ctx.nontrivial = total
@@ -119,7 +182,8 @@ def run(ctx: Ctx):
                 "every applicable single deviation (19 kinds: bad value, missing / extra / misplaced child, "
                 "missing / extra / bad attribute, stray text, at item, sub, title or root level); quick takes "
                 "every 3rd; both schema classes (and XSD 1.1 with an inheritable attribute on the root) x ElementTree and lxml parsers; prefixed and default-namespace "
-                "renderings alternate")
+                "renderings alternate; plus the documents of spec/Identity.tla: every identity-constraint error must select exactly "
+                "its element, which is the offending row / the declaring element / the root")
     ctx.assumptions += ["error paths are evaluated by an independent evaluator of the step[n] path grammar",
                         "fully loaded documents only (lazy resources are C06's business)"]
 
